@@ -12,12 +12,14 @@ pub mod c07;
 pub mod c08;
 pub mod c09;
 pub mod c10;
+pub mod c11;
 pub mod c12;
 pub mod c13;
 pub mod c14;
 pub mod c15;
 pub mod c16;
 pub mod c17;
+pub mod c19;
 pub mod c20;
 pub mod common;
 
@@ -33,12 +35,14 @@ pub fn dispatch(ctx: &Ctx, args: &[String]) -> i32 {
         "C08" => c08::run(ctx),
         "C09" => c09::run(ctx),
         "C10" => c10::run(ctx),
+        "C11" => c11::run(ctx),
         "C12" => c12::run(ctx),
         "C13" => c13::run(ctx),
         "C14" => c14::run(ctx),
         "C15" => c15::run(ctx),
         "C16" => c16::run(ctx),
         "C17" => c17::run(ctx),
+        "C19" => c19::run(ctx),
         "C20" => c20::run(ctx),
         "C16-child" => c16::child(ctx, args),
         "dump" => common::dump(ctx, args),
